@@ -1206,6 +1206,16 @@ func (e *Exec) binop(st *State, fr *Frame, op token.Token, a, b Value, ta, tb ty
 			return eq
 		}
 		return Not(eq)
+	case *GhostV:
+		y := b.(*GhostV)
+		var cs []*Term
+		for i := range x.C {
+			cs = append(cs, Eq(x.C[i], y.C[i]))
+		}
+		if op == token.EQL {
+			return And(cs...)
+		}
+		return Not(And(cs...))
 	case *StructV:
 		y := b.(*StructV)
 		fa, fb := flatten(ta, x), flatten(tb, y)
